@@ -405,17 +405,19 @@ def tasks(tier, seed):
     for i, o in enumerate(stv_opts):
         fams = [fams3[i % len(fams3)]] if q else fams3
         W = 2 if o.get("transfer") == "random" else None
-        for sup in supports_of(fams):
+        for sup in supports_of(fams, sizes=(1, 2, 3, len(fams[0])) if q else None):
             for m in (1, 2, 3):
-                out.append(_t("STV", m, o, sup, C.K3, nmax=nmax, W=W, weight=len(sup), xval_stride=stride))
+                out.append(_t("STV", m, o, sup, C.K3, nmax=nmax, W=W, weight=len(sup), xval_stride=stride,
+                              split=2 if len(sup) >= 4 else 0))
     for i, o in enumerate(F.seq_option_slice(q)):
         fams = [fams3[(i + 3) % len(fams3)]] if q else fams3
-        for sup in supports_of(fams):
+        for sup in supports_of(fams, sizes=(1, 2, 3, len(fams[0])) if q else None):
             for m in (1, 2):
-                out.append(_t("SequentialRCV", m, o, sup, C.K3, nmax=nmax, weight=len(sup), xval_stride=stride))
+                out.append(_t("SequentialRCV", m, o, sup, C.K3, nmax=nmax, weight=len(sup), xval_stride=stride,
+                              split=2 if len(sup) >= 4 else 0))
     for i, tb in enumerate((None, "random")):
         fams = [fams3[(i + 1) % len(fams3)]] if q else fams3
-        for sup in supports_of(fams):
+        for sup in supports_of(fams, sizes=(1, 2, 3, len(fams[0])) if q else None):
             out.append(_t("IRV", 1, {"quota": "droop", "tiebreak": tb}, sup, C.K3, nmax=nmax, weight=len(sup), xval_stride=stride))
     # single-round positional rules (tied positions allowed)
     tied = F.tied3(q)
@@ -462,7 +464,7 @@ def tasks(tier, seed):
             for tb in (None, "random"):
                 if rule == "Limited" and k > m:
                     continue
-                out.append(_ts(rule, m, tb, C.K3, 2, L=L, k=k, weight=6, xval_stride=stride))
+                out.append(_ts(rule, m, tb, C.K3, 2, L=L, k=k, weight=6, xval_stride=stride, split=4))
     return out
 
 
